@@ -555,7 +555,9 @@ Definition st_compl (s : state) (t i : nat) : option state :=
   else None.
 
 (* what QUIESCENT means: every thread is blocked in a wait without a deadline (no worker has its
-   idle timer armed) or has finished, no event is posted and undelivered, no task is registered *)
+   idle timer armed) or has finished, no event is posted and undelivered, no task is registered; the
+   owner is blocked only with events registered on its loop (iv_main returns when numobjs = 0, and
+   pending user timers would be a deadline) *)
 Definition quiet_thread (s : state) (n : nat) : bool :=
   match tk (th s n) with
   | KWorker =>
@@ -571,7 +573,7 @@ Definition quiet_thread (s : state) (n : nat) : bool :=
 
 Definition quiescent (s : state) : bool :=
   match lock s with None => true | Some _ => false end &&
-  (blocked s (own s) || mph_eqb (omain s) MAfter) && otopb s && negb (orelock s) &&
+  blocked s (own s) && (0 <? onum s) && otopb s && negb (orelock s) &&
   match act s (own s) with ANone => true | _ => false end &&
   nilb (opend s) && nilb (obatch s) && nilb (lq s) && nilb (lbatch s) &&
   forallb (quiet_thread s) (tids s).
@@ -648,7 +650,9 @@ Definition step_out (s : state) (t : nat) (l : label) : option state :=
   end.
 
 Definition step (s : state) (l : label) : option state :=
-  if fin s then None
+  if fin s || mph_eqb (omain s) MAfter then
+    (* the run is over; after iv_main of the owner has returned only D follows *)
+    match l with LDone => if negb (fin s) then Some (set_fin true s) else None | _ => None end
   else match lthr l with
   | None =>
     match l with
